@@ -1,0 +1,164 @@
+// Verification hooks (feature `slawlor_ractor_verif`, off by default).
+//
+// Nothing in here changes behaviour: it re-exports crate-private wire types and wraps
+// crate-private pure functions so that an external harness can drive them.
+
+//! Verification-only surface of `ractor_cluster` (feature `slawlor_ractor_verif`)
+
+#![allow(missing_docs, missing_debug_implementations, unreachable_pub)]
+
+/// The wire protocol (prost generated types)
+pub mod proto {
+    pub mod auth {
+        pub use crate::protocol::auth::*;
+    }
+    pub mod node {
+        pub use crate::protocol::node::*;
+    }
+    pub mod control {
+        pub use crate::protocol::control::*;
+    }
+    pub mod meta {
+        pub use crate::protocol::meta::*;
+    }
+    pub use crate::protocol::meta::NetworkMessage;
+}
+
+/// Frame reader / writer entry points of `net::session`
+pub mod framing {
+    pub use crate::net::session_verif::*;
+}
+
+/// Session election entry points of `node`
+pub mod election {
+    pub use crate::node::verif_hooks::*;
+}
+
+/// SHA256(challenge_be ‖ secret) as computed by the crate
+pub fn challenge_digest(secret: &str, challenge: u32) -> [u8; 32] {
+    crate::hash::challenge_digest(secret, challenge)
+}
+
+thread_local! {
+    static NONCES: std::cell::RefCell<std::collections::VecDeque<u64>> =
+        const { std::cell::RefCell::new(std::collections::VecDeque::new()) };
+}
+
+/// Queue the connection nonces the next client-side sessions created on this thread will use
+/// (0 = legacy peer without nonce support). When the queue is empty nonces are random as usual.
+pub fn push_connection_nonce(nonce: u64) {
+    NONCES.with(|n| n.borrow_mut().push_back(nonce));
+}
+
+/// Forget queued nonces
+pub fn clear_connection_nonces() {
+    NONCES.with(|n| n.borrow_mut().clear());
+}
+
+pub(crate) fn next_connection_nonce() -> Option<u64> {
+    NONCES.with(|n| n.borrow_mut().pop_front())
+}
+
+/// Observable state of either handshake state machine
+#[derive(Debug, Clone, Copy, PartialEq, Eq, Hash)]
+pub enum AuthPhase {
+    /// server: waiting on the peer name
+    SWaitingOnPeerName,
+    /// server: have the peer name
+    SHavePeerName,
+    /// server: waiting on the client's status
+    SWaitingOnClientStatus,
+    /// server: waiting on the client's challenge reply
+    SWaitingOnClientChallengeReply,
+    /// server: authenticated
+    SOk,
+    /// client: waiting for the server status
+    CWaitingForServerStatus,
+    /// client: waiting for the server's challenge
+    CWaitingForServerChallenge,
+    /// client: waiting for the server's ack
+    CWaitingForServerChallengeAck,
+    /// client: authenticated
+    COk,
+    /// closed (either side)
+    Close,
+}
+
+/// The server-side handshake state machine
+pub struct ServerFsm(pub(crate) crate::node::auth::ServerAuthenticationProcess);
+
+impl ServerFsm {
+    pub fn init() -> Self {
+        Self(crate::node::auth::ServerAuthenticationProcess::init())
+    }
+    pub fn waiting_on_client_status() -> Self {
+        Self(crate::node::auth::ServerAuthenticationProcess::WaitingOnClientStatus)
+    }
+    pub fn next(&self, msg: proto::auth::AuthenticationMessage, cookie: &str) -> Self {
+        Self(self.0.next(msg, cookie))
+    }
+    pub fn start_challenge(&self, cookie: &str) -> Self {
+        Self(self.0.start_challenge(cookie))
+    }
+    pub fn phase(&self) -> AuthPhase {
+        use crate::node::auth::ServerAuthenticationProcess as S;
+        match &self.0 {
+            S::WaitingOnPeerName => AuthPhase::SWaitingOnPeerName,
+            S::HavePeerName(_) => AuthPhase::SHavePeerName,
+            S::WaitingOnClientStatus => AuthPhase::SWaitingOnClientStatus,
+            S::WaitingOnClientChallengeReply(_, _) => AuthPhase::SWaitingOnClientChallengeReply,
+            S::Ok(_) => AuthPhase::SOk,
+            S::Close => AuthPhase::Close,
+        }
+    }
+    /// (challenge, expected digest) while waiting on the client's reply
+    pub fn challenge(&self) -> Option<(u32, [u8; 32])> {
+        match &self.0 {
+            crate::node::auth::ServerAuthenticationProcess::WaitingOnClientChallengeReply(c, d) => {
+                Some((*c, *d))
+            }
+            _ => None,
+        }
+    }
+    /// the digest sent back to the client once authenticated
+    pub fn ack_digest(&self) -> Option<[u8; 32]> {
+        match &self.0 {
+            crate::node::auth::ServerAuthenticationProcess::Ok(d) => Some(*d),
+            _ => None,
+        }
+    }
+}
+
+/// The client-side handshake state machine
+pub struct ClientFsm(pub(crate) crate::node::auth::ClientAuthenticationProcess);
+
+impl ClientFsm {
+    pub fn init() -> Self {
+        Self(crate::node::auth::ClientAuthenticationProcess::init())
+    }
+    pub fn next(&self, msg: proto::auth::AuthenticationMessage, cookie: &str) -> Self {
+        Self(self.0.next(msg, cookie))
+    }
+    pub fn phase(&self) -> AuthPhase {
+        use crate::node::auth::ClientAuthenticationProcess as C;
+        match &self.0 {
+            C::WaitingForServerStatus => AuthPhase::CWaitingForServerStatus,
+            C::WaitingForServerChallenge(_) => AuthPhase::CWaitingForServerChallenge,
+            C::WaitingForServerChallengeAck(_, _, _, _) => AuthPhase::CWaitingForServerChallengeAck,
+            C::Ok => AuthPhase::COk,
+            C::Close => AuthPhase::Close,
+        }
+    }
+    /// (digest to send to the server, our challenge, digest expected back)
+    pub fn challenge(&self) -> Option<([u8; 32], u32, [u8; 32])> {
+        match &self.0 {
+            crate::node::auth::ClientAuthenticationProcess::WaitingForServerChallengeAck(
+                _,
+                reply,
+                ours,
+                expected,
+            ) => Some((*reply, *ours, *expected)),
+            _ => None,
+        }
+    }
+}
